@@ -443,6 +443,18 @@ func (state *RuntimeState) validateUserTOTP(username string, OTPValue int, t tim
 			logger.Printf("validateUserTOTP: TOTP code already used")
 			return false, nil
 		}
+		// Claim the code before the (possibly slow) profile save: a concurrent
+		// request of the same user must not pass the same check meanwhile.
+		state.totpLocalTateLimitMutex.Lock()
+		current := state.totpLocalRateLimit[username]
+		if current.lastSuccessCounter >= matchedCounter {
+			state.totpLocalTateLimitMutex.Unlock()
+			logger.Printf("validateUserTOTP: TOTP code already used")
+			return false, nil
+		}
+		current.lastSuccessCounter = matchedCounter
+		state.totpLocalRateLimit[username] = current
+		state.totpLocalTateLimitMutex.Unlock()
 		userRateLimit.lastSuccessCounter = matchedCounter
 		if !fromCache {
 			profile.LastSuccessfullTOTPCounter = matchedCounter
